@@ -272,6 +272,8 @@ def r4_bracket(prog, res):
 
 
 def run(prog, res, tier):
+    from rules import c13 as _c13
+    _c13.r3_clear_resets_max(prog, res, rule="R6.cleared_manager_is_recognised_empty")
     r1_tables(prog, res)
     r2_passes(prog, res)
     r3_state_kept(prog, res)
